@@ -1,0 +1,17 @@
+//go:build verif
+
+package cpualt
+
+// VerifSharedStateDigest hashes every package-level variable of this package
+// (the four cycle tables; the opcode table is per CPU instance).
+// Verification hook: compiled only with -tags verif.
+func VerifSharedStateDigest() uint64 {
+	h := uint64(1469598103934665603)
+	for _, t := range [][256]byte{decCycles_flagM, decCycles_flagX, incCycles_regDL_not00, incCycles_PageCross} {
+		for _, b := range t {
+			h ^= uint64(b)
+			h *= 1099511628211
+		}
+	}
+	return h
+}
